@@ -340,7 +340,7 @@ fn model_tokens_i(n: &RefInt) -> Vec<Tok> {
 }
 
 /// Build the same value by different routes so that buffers carry different capacity / slack.
-fn build_u(words: &[u32], route: i128) -> BigUint {
+pub fn build_u(words: &[u32], route: i128) -> BigUint {
     let base = BigUint::new(words.to_vec());
     match route {
         1 => BigUint::from_slice(words),
